@@ -44,8 +44,12 @@ else
     n=$(basename "$d"); [ -f "$d/patch.diff" ] || continue
     if [ $# -gt 0 ]; then case " $* " in *" $n "*) ;; *) continue;; esac; fi
     git -C "$WT" reset -q --hard "$(git -C /repo rev-parse HEAD)"; git -C "$WT" clean -qfd -e Cargo.lock -e target
-    if ! git -C "$WT" apply "$d/patch.diff" 2>/tmp/sens/apply.log; then echo "| $n | - | patch-does-not-apply | $(head -1 /tmp/sens/apply.log) |" >> "$OUT"; continue; fi
-    props=$(python3 -c "import json,sys; m=json.load(open('$d/meta.json')); print(' '.join(m.get('run_checks') or [m['property']]))")
+    if ! git -C "$WT" apply "$d/patch.diff" 2>/tmp/sens/apply.log; then
+      # the code the change was written against has been repaired since: use the port of the same slip to the current code
+      if [ -f "$d/patch_ported.diff" ] && git -C "$WT" apply "$d/patch_ported.diff" 2>>/tmp/sens/apply.log; then n="$n(ported)";
+      else echo "| $n | - | patch-does-not-apply | $(head -1 /tmp/sens/apply.log) |" >> "$OUT"; continue; fi
+    fi
+    props=$(python3 -c "import json,sys; m=json.load(open('${d}meta.json')); print(' '.join(m.get('run_checks') or [m['property']]))")
     run_props "$n" $props
     git -C "$WT" reset -q --hard
   done
